@@ -139,6 +139,17 @@ Theorem C02_quad_edge_rows :
     chained_to (if y2 <? y0 then -1 else 1) top ls bot.
 Proof. exact quad_edge_lines_rows. Qed.
 
+(* a cubic edge pins every new ordinate (newy = max(newy, oldy)): its lines are contiguous from the rounded ordinate of the upper
+   end point down to a row [stop] that is NEVER ABOVE the rounded ordinate of the lower end point, and may lie below it -- the rows
+   bot .. stop - 1 are where a cubic can leave a row unbalanced (the reason Skia's conservative bounds carry extra slop) *)
+Theorem C02_cubic_edge_rows :
+  forall p0 p1 p2 p3 sh ls,
+  cubic_edge_lines p0 p1 p2 p3 sh = Some ls ->
+  let y0 := fd6 (py p0) sh in let y3 := fd6 (py p3) sh in
+  exists top bot stop, fdot6_round (Z.min y0 y3) = Some top /\ fdot6_round (Z.max y0 y3) = Some bot /\ bot <= stop /\
+    chained_to (if y3 <? y0 then -1 else 1) top ls stop.
+Proof. exact cubic_edge_lines_rows. Qed.
+
 (* hence every row is balanced for every path made of lines and quadratic segments, at every supersampling shift: the windings
    of the edges active on a row sum to zero (chopping at the extremum only inserts a shared point, every contour is closed) *)
 Theorem C02_quad_path_balanced :
